@@ -627,37 +627,17 @@ Proof.
   apply (Shuffle_pick [] 1 [] [[]]). constructor. repeat constructor.
 Qed.
 
-(** ** Algorithm choice: the full statement, and its refutation on the pinned tree *)
+(** ** Algorithm choice: which algorithm runs never depends on the CPU count *)
 
-(** Full statement: which algorithm runs never depends on the CPU count. *)
 Definition algorithm_choice_independent : Prop :=
   forall n1 n2, 1 <= n1 -> 1 <= n2 ->
     (forall size lowEffort, hashchain_uses_parallel n1 size lowEffort = hashchain_uses_parallel n2 size lowEffort) /\
     (forall mbH method doSearch, encodeframe_uses_parallel n1 mbH method doSearch = encodeframe_uses_parallel n2 mbH method doSearch).
 
-Theorem algorithm_choice_hashchain_refuted :
-  exists n1 n2 size, 1 <= n1 /\ 1 <= n2 /\
-    hashchain_uses_parallel n1 size false <> hashchain_uses_parallel n2 size false.
-Proof. exists 1, 2, 160000. repeat split; try lia. vm_compute. discriminate. Qed.
+Theorem algorithm_choice_independent_holds : algorithm_choice_independent.
+Proof. intros n1 n2 _ _. split; intros; reflexivity. Qed.
 
-Theorem algorithm_choice_encodeframe_refuted :
-  exists n1 n2 mbH method, 1 <= n1 /\ 1 <= n2 /\
-    encodeframe_uses_parallel n1 mbH method false <> encodeframe_uses_parallel n2 mbH method false.
-Proof. exists 1, 2, 4, 4. repeat split; try lia. vm_compute. discriminate. Qed.
-
-Theorem algorithm_choice_independent_refuted : ~ algorithm_choice_independent.
-Proof.
-  intros H. destruct (H 1 2 ltac:(lia) ltac:(lia)) as [Hh _].
-  specialize (Hh 160000 false). vm_compute in Hh. discriminate.
-Qed.
-
-(** With the repaired selections (by size / method only) the choice is a function of
-    the input alone, and for n >= 2 the pinned selection already agrees with it. *)
-Theorem algorithm_choice_agrees_above_one : forall n, 2 <= n ->
+Theorem algorithm_choice_is_by_size_and_method : forall n,
   (forall size lowEffort, hashchain_uses_parallel n size lowEffort = hashchain_uses_parallel_fixed size lowEffort) /\
   (forall mbH method doSearch, encodeframe_uses_parallel n mbH method doSearch = encodeframe_uses_parallel_fixed mbH method doSearch).
-Proof.
-  intros n Hn. unfold hashchain_uses_parallel, hashchain_uses_parallel_fixed,
-    encodeframe_uses_parallel, encodeframe_uses_parallel_fixed.
-  assert (E : (n >? 1) = true) by lia. rewrite E. split; intros; reflexivity.
-Qed.
+Proof. intros n. split; intros; reflexivity. Qed.
